@@ -110,3 +110,24 @@ Theorem C09_code_send_request_spr_P : forall cfg T P2 P2S now a1, timing cfg (So
   fn_send_request_spr_P T P2 P2S now a1 = ret (obs_sr (send_request cfg (spr_enter (spr_call st_init false)) tp_req (-1) now [(a1, Frame [126; 0])])).
 Proof. exact tie_send_request_spr_P. Qed.
 Print Assumptions C09_code_send_request_spr_P.
+
+(* ---- the code is the model (regenerated each run): the real Client.send_request on a symbolic clock inside / after the context managers
+   (tools/symtrans.py, Gen/Fn_SendContext.v) - a bare suppress block after one that waited for negative replies does not wait; after a block requests are ordinary again ---- *)
+From UDS Require Import Gen.Fn_SendContext Model.Services Proofs.Tie_send_common Proofs.Tie_send_flush Proofs.Tie_send_ctx.
+
+Theorem C09_code_send_request_bare_after_wait_silence : forall cfg T P2 P2S now, timing cfg (Some T) P2 P2S ->
+  fn_send_request_bare_after_wait_silence T P2 P2S now = ret (obs_full (send_request cfg st_bare_after_wait tp_req (-1) now [])).
+Proof. exact tie_send_request_bare_after_wait_silence. Qed.
+Print Assumptions C09_code_send_request_bare_after_wait_silence.
+Theorem C09_code_send_request_bare_after_wait_P : forall cfg T P2 P2S now a1, timing cfg (Some T) P2 P2S ->
+  fn_send_request_bare_after_wait_P T P2 P2S now a1 = ret (obs_full (send_request cfg st_bare_after_wait tp_req (-1) now [(a1, Frame [126; 0])])).
+Proof. exact tie_send_request_bare_after_wait_P. Qed.
+Print Assumptions C09_code_send_request_bare_after_wait_P.
+Theorem C09_code_send_request_after_wait_block_silence : forall cfg T P2 P2S now, timing cfg (Some T) P2 P2S ->
+  fn_send_request_after_wait_block_silence T P2 P2S now = ret (obs_full (send_request cfg st_after_wait_block tp_req (-1) now [])).
+Proof. exact tie_send_request_after_wait_block_silence. Qed.
+Print Assumptions C09_code_send_request_after_wait_block_silence.
+Theorem C09_code_send_request_after_wait_block_P : forall cfg T P2 P2S now a1, timing cfg (Some T) P2 P2S ->
+  fn_send_request_after_wait_block_P T P2 P2S now a1 = ret (obs_full (send_request cfg st_after_wait_block tp_req (-1) now [(a1, Frame [126; 0])])).
+Proof. exact tie_send_request_after_wait_block_P. Qed.
+Print Assumptions C09_code_send_request_after_wait_block_P.
